@@ -38,7 +38,7 @@ func NewLeafReduce(leafExecuteCtx *context.LeafExecuteContext, executeCtx *flow.
 
 // Execute executes aggregate down sampling result set after all down sampling operators completed.
 func (op *leafReduce) Execute() error {
-	if op.executeCtx.PendingDataLoadTasks.Load() == 0 {
+	if op.executeCtx.PendingDataLoadTasks.CompareAndSwap(0, -1) {
 		// after load, need to reduce the aggregator's result to query flow.
 		op.executeCtx.Reduce(op.leafExecuteCtx.ReduceCtx.Reduce)
 	}
